@@ -16,7 +16,7 @@ Import ListNotations.
 Theorem c16_later_wraps_earlier : forall (V : Type) (ms : list (middleware V)) (m : middleware V) (core : handler V),
   compose core (ms ++ [m]) = m (compose core ms)
   /\ add_middleware m (compose core ms) = compose core (ms ++ [m]).
-Proof. intros V. exact later_wraps_earlier. Qed.
+Proof. exact later_wraps_earlier. Qed.
 Print Assumptions c16_later_wraps_earlier.
 
 (** for every list [ms] (any length, observing or rewriting), every proxied function and all
@@ -46,7 +46,7 @@ Print Assumptions c16_each_once_nested.
 (** observers are transparent: the proxied function gets the caller's arguments, the caller its results *)
 Theorem c16_observers_transparent : forall (V : Type) (ms : list (mwspec V)) (a r : list V),
   Forall observer ms -> args_in (rev ms) a = a /\ res_out ms r = r.
-Proof. intros V. exact observers_transparent. Qed.
+Proof. exact observers_transparent. Qed.
 Print Assumptions c16_observers_transparent.
 
 (** the generated wiring, for every heap and every way the variadic lists are passed (spare
